@@ -293,6 +293,11 @@ func (b *Builder) Int64(v int64) *Builder {
 func (b *Builder) Ident(s string) *Builder {
 	if s != "" {
 		b.WriteByte(b.QuoteOpening)
+		// Escape the closing quote character by doubling it, so that
+		// the identifier cannot terminate the quoting prematurely.
+		if q := string(b.QuoteClosing); strings.Contains(s, q) {
+			s = strings.ReplaceAll(s, q, q+q)
+		}
 		b.WriteString(s)
 		b.WriteByte(b.QuoteClosing)
 		b.WriteByte(' ')
